@@ -70,6 +70,10 @@ def timing_scenarios(tier):
         d = chain(("T", Task("f1", TimeoutSeconds=3, **h)), Z)
         two("task-timeout-slow-worker-" + hname, d, workers={"f1": {"*": [["delay", ["ok", {"r": 1}]]]}})
         two("task-timeout-never-" + hname, d, workers={"f1": {"*": NONE}}, budget=1)
+    # the same with the number of seconds taken from the input (TimeoutSecondsPath)
+    dp = chain(("T", Task("f1", TimeoutSecondsPath="$.limits.t")), Z)
+    two("task-timeoutpath-slow-worker", dp, inp={"limits": {"t": 3}}, workers={"f1": {"*": [["delay", ["ok", {"r": 1}]]]}})
+    two("task-timeoutpath-never", dp, inp={"limits": {"t": 3}}, workers={"f1": {"*": NONE}}, budget=1)
     # a Task retried with a growing back-off: every attempt measures its TimeoutSeconds from its own (delayed) dispatch instant
     d = chain(("T", Task("f1", TimeoutSeconds=4, Retry=[{"ErrorEquals": ["E1"], "IntervalSeconds": 2, "BackoffRate": 2.0, "MaxAttempts": 3}])), Z)
     two("task-timeout-after-backoff-retries", d, workers={"f1": {"*": [["err", "E1", "x"], ["err", "E1", "x"], ["delay", ["ok", {"r": 3}]]]}}, budget=1)
